@@ -74,6 +74,7 @@ fn composite_samples() -> Vec<Value> {
     d_sc.insert("inf".into(), Value::make_number(f64::NEG_INFINITY));
     d_sc.insert("dt".into(), Value::make_datetime(libhaystack::val::DateTime::parse_from_rfc3339_with_timezone("2021-06-19T19:48:23-04:00", "New_York").unwrap()));
     d_sc.insert("dtz".into(), Value::make_datetime_from_iso("2021-06-19T19:48:23Z").unwrap());
+    d_sc.insert("dtl".into(), Value::make_datetime(libhaystack::val::DateTime::parse_from_rfc3339_with_timezone("2021-01-19T19:48:23Z", "London").unwrap()));
     d_sc.insert("date".into(), Value::make_date(libhaystack::val::Date::from_ymd(2021, 6, 19).unwrap()));
     d_sc.insert("time".into(), Value::make_time(libhaystack::val::Time::from_hms_milli(23, 59, 59, 999).unwrap()));
     d_sc.insert("unit".into(), Value::make_number_unit(3.0, libhaystack::units::get_unit_or_default("kW")));
@@ -91,6 +92,7 @@ fn composite_samples() -> Vec<Value> {
         Value::make_list(vec![Value::make_int(1)]),
         Value::make_list(vec![Value::make_int(1), Value::make_str("a"), Value::Marker]),
         Value::make_list(vec![Value::make_list(vec![Value::make_int(1)]), Value::make_list(vec![])]),
+        Value::make_list((0..6).map(Value::make_int).collect()),
         Value::make_list(vec![Value::make_int(42), Value::make_grid(g1.clone()), Value::Marker]),
         Value::make_dict(Dict::new()),
         Value::make_dict(d1.clone()),
@@ -196,7 +198,7 @@ fn main() {
                 for v in &all[..all.len() - 1] {
                     let z = v.to_zinc_string();
                     let back = z.as_ref().ok().map(|z| from_str(z));
-                    if !matches!(&back, Some(Ok(b)) if b == v) {
+                    if !matches!(&back, Some(Ok(b)) if b == v && format!("{b:?}") == format!("{v:?}")) {
                         println!("RESULT enum:zinc-escape composite value={v:?} zinc={z:?} decoded={back:?}");
                         bad = true;
                     }
@@ -236,7 +238,7 @@ fn main() {
             for v in &all[..all.len() - 1] {
                 let j = serde_json::to_string(v);
                 let back = j.as_ref().ok().map(|j| serde_json::from_str::<Value>(j));
-                if !matches!(&back, Some(Ok(b)) if norm(b) == norm(v)) {
+                if !matches!(&back, Some(Ok(b)) if norm(b) == norm(v) && format!("{:?}", norm(b)) == format!("{:?}", norm(v))) {
                     println!("RESULT enum:hayson-roundtrip value={v:?} json={j:?} decoded={back:?}");
                     bad = true;
                 }
